@@ -9,7 +9,9 @@ META = {
             'output differs from the unrenamed output; distinct by (program, option set)',
     'assumptions': ['tools/scopes.py is the specification of CPython scoping (validated against symtable on every run; private-name '
                     'mangling and PEP 695 annotation scopes are outside it)'],
-    'modelled_not_verified': ['mapper/bind/resolve (scope analysis of the minifier) are not yet modelled in Lean: covered by the oracle only',
+    'modelled_not_verified': ['resolve_names.get_binding / get_nonlocal_namespace: Lean model over the dumped namespace tree (theorems get_binding_is_python_lookup, '
+                              'class_bodies_skipped); the correspondence stage asks model and implementation for every Name of every program',
+                              'mapper/bind (which names a namespace binds, which namespaces a binding reserves) are not modelled in Lean: covered by the oracle only',
                               'NameAssigner: Lean model of the assignment loop over dumped binding structures (see C03 theorems)'],
 }
 
@@ -47,10 +49,64 @@ def run_programs(ctx, progs, option_sets, found_by):
         ctx.sample({'stage': found_by, 'id': progs[-1][0], 'source': progs[-1][1][:300]})
 
 
+import ast
+
+# ---- get_binding against its Lean model (PMV.Resolve.getBinding; theorems get_binding_spec, class_bodies_skipped) ----
+
+def resolver_correspondence(ctx, progs, found_by):
+    """the real resolve_names.get_binding and the model on every Name of the same modules, over the namespace tree the real
+    mapper / binder built (kinds, parents, bound names, global / nonlocal declarations)"""
+    import resolver_corr as rcorr
+    import sexp
+    from python_minifier.ast_annotation import add_parent
+    from python_minifier.rename import add_namespace, bind_names, resolve_names
+    reqs, meta = [], []
+    for ident, src in progs:
+        try:
+            m = ast.parse(src)
+            add_parent(m)
+            add_namespace(m)
+            bind_names(m)
+            resolve_names(m)
+        except RecursionError:
+            continue
+        except SyntaxError:
+            continue
+        ordered, index, enc = rcorr.dump_namespaces(m)
+        qs = rcorr.queries_of(m, index)
+        if not qs:
+            continue
+        reqs.append('resolve.get %s %s' % (enc, sexp.lst(['(%s %d)' % (sexp.enc_str(x), index[id(ns)]) for x, ns in qs])))
+        meta.append((ident, src, ordered, qs))
+    answers = ctx.driver.ask(reqs) if reqs else []
+    total = diffs = deep = 0
+    for (ident, src, ordered, qs), ans in zip(meta, answers):
+        if not ans.startswith('ok'):
+            ctx.add_broken('correspondence', 'resolve.get:' + ident, 'driver answered %r' % ans[:100])
+            continue
+        got = ans[3:].split()
+        bad = []
+        for (x, ns), g in zip(qs, got):
+            total += 1
+            real = rcorr.real_home(x, ns, ordered)
+            model = None if g == '-' else int(g)
+            if real is not None and real != 0 and ns is not ordered[real]:
+                deep += 1
+            if real != model:
+                bad.append((x, real, model))
+        ctx.count()
+        if bad:
+            diffs += 1
+            ctx.add_broken('correspondence', 'resolve.get:' + ident,
+                           'get_binding and the model (C03.get_binding_spec) disagree on %r (name, implementation home, model home) in %r' % (bad[:4], src[:500]))
+    ctx.stage('resolver-correspondence:' + found_by, modules=len(meta), queries=total, resolved_in_an_enclosing_function=deep, diffs=diffs)
+
+
 def run(ctx):
     progs = rc.programs(ctx, ctx.scale(900, None), ctx.scale(200, 3000), private=True)
     spec_validation(ctx, progs[:ctx.scale(400, 3000)])
     rc.assigner_correspondence(ctx, progs[:ctx.scale(700, 8000)], [(True, False, False), (True, True, True), (False, True, False)])
+    resolver_correspondence(ctx, progs[:ctx.scale(900, 9000)], 'generated')
     osets = rc.RENAME_OPTION_SETS if ctx.tier == 'thorough' else [rc.RENAME_OPTION_SETS[i] for i in (0, 2, 4)]
     run_programs(ctx, progs, osets, 'generated')
     for k in ctx.known:
